@@ -73,7 +73,7 @@ func run(dir string, args []string, inject string, stdin string) (runResult, err
 	}
 	b, _ := os.ReadFile(logf)
 	os.Remove(logf)
-	res.log = strings.Split(string(b), "\n")
+	res.log = mergeUnfinished(strings.Split(string(b), "\n"))
 	for i, l := range res.log {
 		l = cwdRE.ReplaceAllString(l, "AT_FDCWD")
 		res.log[i] = l
@@ -87,9 +87,40 @@ func run(dir string, args []string, inject string, stdin string) (runResult, err
 	return res, nil
 }
 
+var (
+	unfinishedRE = regexp.MustCompile(`^(\d+)\s+(.*) <unfinished \.\.\.>$`)
+	resumedRE    = regexp.MustCompile(`^(\d+)\s+<\.\.\. \w+ resumed>(.*)$`)
+)
+
+// mergeUnfinished joins the two halves of a call that strace -f printed apart because
+// another thread's call came in between ("<unfinished ...>" / "<... name resumed>"):
+// the joined line stands where the call completed.
+func mergeUnfinished(lines []string) []string {
+	pending := map[string]string{}
+	var out []string
+	for _, l := range lines {
+		if mm := unfinishedRE.FindStringSubmatch(l); mm != nil {
+			pending[mm[1]] = mm[1] + " " + mm[2]
+			continue
+		}
+		if mm := resumedRE.FindStringSubmatch(l); mm != nil {
+			if head, ok := pending[mm[1]]; ok {
+				delete(pending, mm[1])
+				out = append(out, head+mm[2])
+				continue
+			}
+		}
+		out = append(out, l)
+	}
+	for _, head := range pending { // a call that never came back (the process was killed inside it)
+		out = append(out, head+" <unfinished ...>")
+	}
+	return out
+}
+
 var cwdRE = regexp.MustCompile(`AT_FDCWD<[^>]*>`)
 
-var renameOK = regexp.MustCompile(`renameat2?\(.*\) = 0$`)
+var renameOK = regexp.MustCompile(`renameat2?\(.*\)\s+= 0$`)
 
 // renamedBefore reports whether the rename onto the target completed before the fault or kill.
 func renamedBefore(res runResult, target string) bool {
@@ -284,7 +315,7 @@ func checkCase(c Case, st *stats) *h.Failure {
 			return fail("file-damaged", fmt.Sprintf("the file holds neither its original nor the formatted text: %q", got.content))
 		}
 		if !renamed && got.content != c.Content {
-			return fail("changed-without-rename", "the file changed although the rename had not completed")
+			return fail("changed-without-rename", "the file changed although no completed rename onto it is in the system call log:\n"+strings.Join(res.log, "\n"))
 		}
 		if got.mode != os.FileMode(c.Mode) {
 			return fail("mode-changed", fmt.Sprintf("permission bits changed from %04o to %04o", c.Mode, got.mode))
